@@ -473,7 +473,9 @@ where
                 return Err(self.mk_error(LexErrorKind::InvalidName, i + rspace + 1));
             }
             name = Some(orig_name[1..orig_name.len() - 1].to_string());
-            name_span = Span::new(i + rspace + 2, i + rspace + orig_name.len());
+            // `orig_name` is the tail of `line` (it follows any `<state>` prefix).
+            let name_off = i + line.len() - orig_name.len();
+            name_span = Span::new(name_off + 1, name_off + orig_name.len() - 1);
             self.rules.iter().any(|r| {
                 let dupe = r.name().is_some_and(|n| n == name.as_ref().unwrap());
                 if dupe {
